@@ -105,6 +105,7 @@ class Transaction:
             self.keys = env._st["keys"]   # snapshot by reference: commits install new objects
             self.vals = env._st["vals"]
         self.done = False
+        self._cursors = []   # cursors of a write txn are tracked: mutations keep their logical position
 
     def __enter__(self):
         return self
@@ -159,7 +160,11 @@ class Transaction:
         key = self._chk(key)
         self._mutation()
         if key not in self.vals:
-            bisect.insort(self.keys, key)
+            i = bisect.bisect_left(self.keys, key)
+            self.keys.insert(i, key)
+            for c in self._cursors:
+                if c.pos is not None and c.pos >= i:
+                    c.pos += 1
         self.vals[key] = bytes(value)
         if TRACE_ON[0]:
             TRACE.append(("put", key, bytes(value)))
@@ -174,6 +179,14 @@ class Transaction:
             del self.vals[key]
             i = bisect.bisect_left(self.keys, key)
             del self.keys[i]
+            # like mdb_cursor_del0: a cursor on the deleted key now denotes its successor
+            # (prev() goes to the predecessor of the deleted key); cursors above move down
+            for c in self._cursors:
+                if c.pos is not None:
+                    if c.pos > i:
+                        c.pos -= 1
+                    elif c.pos == i and i == len(self.keys):
+                        c.pos = None
             return True
         return False
 
@@ -191,6 +204,8 @@ class Cursor:
     def __init__(self, txn):
         self.txn = txn
         self.pos = None
+        if txn.write:
+            txn._cursors.append(self)
 
     def __enter__(self):
         return self
